@@ -461,7 +461,17 @@ pub fn record(args: &Args) {
 			let m = rng.below(6);
 			J::Array((0..m).map(|_| json!({"k": str_to_cps(&keys[rng.below(keys.len().min(8))]), "v": rng.below(10)})).collect())
 		};
-		let name = match rng.below(100) {
+		// phases: the object mostly grows for a while, then is mostly drained (down to a few entries, so that the key
+		// table passes its shrink / tombstone thresholds in both directions), then grows again
+		let draining = (step / 60) % 3 == 2;
+		let name = if draining && rng.chance(4, 5) && !o.is_empty() {
+			match rng.below(10) {
+				0..=4 => "remove_at",
+				5..=6 => "remove",
+				7..=8 => "remove_unique",
+				_ => "insert",
+			}
+		} else { match rng.below(100) {
 			0..=27 => "push",
 			28..=39 => "push_front",
 			40..=49 => "insert",
@@ -476,7 +486,7 @@ pub fn record(args: &Args) {
 			95 => "clone_from",
 			96..=98 => "extend",
 			_ => "from_vec",
-		};
+		} };
 		let op = match name {
 			"remove_at" | "set_value" => json!({"op": name, "k": [], "v": v, "i": rng.below(len + 2), "n": 99, "es": []}),
 			"sort" | "clone" => json!({"op": name, "k": [], "v": 0, "i": 0, "n": 99, "es": []}),
